@@ -295,10 +295,34 @@ def main():
                 out.append(dict(k="ok"))
             elif kind == "parse":
                 from periodictable import formulas
-                f = formulas.formula("Fe2O3", table=tables[ev[1]])
                 t = tables[ev[1]]
-                good = all(a is t[a.number] for a in f.atoms)
-                out.append(dict(k="bool", b=bool(good)))
+
+                def of_t(a):
+                    x = t[a.number]
+                    el = a.element if core.ision(a) else a
+                    if core.isisotope(el):
+                        x = x[el.isotope]
+                    if core.ision(a):
+                        x = x.ion[a.charge]
+                    return x is a
+                # every way a string is turned into a formula with table=T (several elements per component and densities written out,
+                # so that no property group of T is touched)
+                routes = [("formula('Fe2O3', table=T)", lambda: formulas.formula("Fe2O3", table=t)),
+                          ("formula('Fe[58]{2+}O{2-} + 2D2O', table=T)", lambda: formulas.formula("Fe[58]{2+}O{2-} + 2D2O", table=t)),
+                          ("formula('50 wt% FeO@5.7 // NiO@6.67', table=T)", lambda: formulas.formula("50 wt% FeO@5.7 // NiO@6.67", table=t)),
+                          ("formula('50 vol% FeO@5.7 // NiO@6.67', table=T)", lambda: formulas.formula("50 vol% FeO@5.7 // NiO@6.67", table=t)),
+                          ("formula('5g NaCl // 50mL H2O@1', table=T)", lambda: formulas.formula("5g NaCl // 50mL H2O@1", table=t)),
+                          ("formula('5 nm FeO@5.7 // 2 um NiO@6.67', table=T)", lambda: formulas.formula("5 nm FeO@5.7 // 2 um NiO@6.67", table=t)),
+                          ("mix_by_weight('FeO', 1, 'NiO', 2, table=T)", lambda: formulas.mix_by_weight("FeO", 1, "NiO", 2, table=t)),
+                          ("mix_by_volume('H2O@1', 3, 'D2O@1.1', 2, table=T)", lambda: formulas.mix_by_volume("H2O@1", 3, "D2O@1.1", 2, table=t)),
+                          ("formula('aa:GA', table=T)", lambda: formulas.formula("aa:GA", table=t)),
+                          ("formula('dna:ACGT', table=T)", lambda: formulas.formula("dna:ACGT", table=t))]
+                bad = []
+                for label, fn in routes:
+                    f = fn()
+                    if not all(of_t(a) for a in f.atoms):
+                        bad.append(label)
+                out.append(dict(k="bool", b=not bad, msg="; ".join(bad)))
             elif kind == "pickle":
                 a = atom(ev[1], ev[2])
                 b = pickle.loads(pickle.dumps(a))
